@@ -638,6 +638,16 @@ impl<'a> RefSim<'a> {
                     }
                     expect = Some(OpRes::Cancel(k.is_some()));
                 }
+                Op::CancelDriver { slot } => {
+                    // a clone of a key held by the driver: the driver keeps its own
+                    let n = self.dslots.len();
+                    let k = self.dslots[*slot as usize % n];
+                    if let Some(k) = k {
+                        self.note_cancel(k);
+                        self.cancel_key(k, Some((m, pos)));
+                    }
+                    expect = Some(OpRes::Cancel(k.is_some()));
+                }
                 Op::ReadTime => {
                     expect = Some(OpRes::Time(t));
                 }
